@@ -100,6 +100,30 @@ def c05_cases(tier, rng):
             # the same with command and payload in one network segment: the line limiter sits below bufio and
             # sees the payload (recorded finding, see known_findings.json)
             cases.append(c.case(seg="one", rng=rng) + "\tTAG=limiter-sees-payload")
+    # chunks inside TLS: after a successful STARTTLS the chunk must be taken off the TLS stream — also when a chunked transfer (refused,
+    # abandoned or completed) took place in plaintext before, and when plaintext was injected behind the STARTTLS line
+    for lm in (False, True):
+        for before in ("none", "refused", "abandoned", "completed"):
+            for inj in (b"", b"INJECTED PLAINTEXT MAIL FROM:<bait@x>\r\n"):
+                for chunks in ((b"hello\r\n",), (b"MAIL FROM:<bait@x>\r\n", b"\x00\xff\n.\n"), (b"ab", b"", b"QUIT\r\n")):
+                    c = g.Conv(dict(tls="avail", lmtp=int(lm), maxline=2000))
+                    if before == "none":
+                        c.add((b"LHLO" if lm else b"EHLO") + b" plain.example\r\n", NS="ok")
+                    elif before == "refused":
+                        c.add((b"LHLO" if lm else b"EHLO") + b" plain.example\r\n", NS="ok")
+                        c.add(b"BDAT 4 LAST\r\nNOOP")
+                    else:
+                        envelope(c, lm)
+                        c.add(b"BDAT 3%s\r\nxyz" % (b" LAST" if before == "completed" else b""), DATA=g.ddec(ret="prop"))
+                    c.starttls(inj)
+                    envelope(c, lm)
+                    for i, p in enumerate(chunks):
+                        last = b" LAST" if i == len(chunks) - 1 else b""
+                        dec = dict(DATA=g.ddec()) if i == 0 else {}
+                        c.add(b"BDAT %d" % len(p) + last + CRLF + p, **dec)
+                    markers(c, 1)
+                    for seg in ("line", "one"):
+                        cases.append(c.case(seg=seg, rng=rng))
     return cases
 
 
